@@ -28,6 +28,7 @@ import (
 	"github.com/jamf/regatta/storage/table"
 	"github.com/lni/dragonboat/v4"
 	"google.golang.org/grpc"
+	"google.golang.org/grpc/status"
 
 	"verif/harness/engx"
 	"verif/harness/evid"
@@ -86,6 +87,7 @@ func mk(c Case) (sched.Scenario, *world) {
 			st := &metastore.NodeStore{C: w.c, Node: i, T: t}
 			w.stores[i] = st
 			m := table.VerifNewManager(st, uint64(i+1))
+			srv := &regattaserver.TablesServer{Tables: tableSvc{m}}
 			for k, op := range prog {
 				cl := &call{node: i, k: k, op: op, label: fmt.Sprintf("n%d.%d:%s", i, k, opName[op])}
 				st.Call = cl.label
@@ -98,10 +100,15 @@ func mk(c Case) (sched.Scenario, *world) {
 					if op == opCreateB {
 						name = "b"
 					}
-					tab, err := m.VerifCreateTable(name)
-					cl.err, cl.id = err, tab.ClusterID
+					// through the real gRPC handler (what a client of the Tables API reaches)
+					resp, err := srv.Create(context.Background(), &regattapb.CreateTableRequest{Name: name})
+					cl.err = handlerErr(err)
+					if err == nil {
+						cl.id, _ = strconv.ParseUint(resp.Id, 10, 64)
+					}
 				case opDeleteA:
-					cl.err = m.DeleteTable("a")
+					_, err := srv.Delete(context.Background(), &regattapb.DeleteTableRequest{Name: "a"})
+					cl.err = handlerErr(err)
 				case opAllocID:
 					cl.id, cl.err = m.VerifIncAndGetIDSeq()
 				}
@@ -163,6 +170,12 @@ func check(x sched.Exec, w *world, c Case) (vs []viol, outcome string) {
 			} else {
 				if r.Node >= 0 {
 					deleted[r.Call] = true
+					// only a delete call removes a table ("listing and lookup reflect precisely the
+					// created-and-not-deleted tables"): a record removed on behalf of any other call
+					// makes an acknowledged table vanish
+					if !strings.Contains(r.Call, opName[opDeleteA]) {
+						vs = append(vs, viol{"table-record-removed-by-a-call-that-is-not-a-delete", fmt.Sprintf("%s removed the record of %q at log index %d (existed: %v)", r.Call, name, r.Index, present[name])})
+					}
 					if present[name] {
 						fmt.Fprintf(&sb, "D%s", name)
 					}
@@ -497,6 +510,35 @@ func Replay(raw json.RawMessage) (string, bool) {
 		fmt.Fprintf(&sb, "%s: %s\n", v.sig, v.detail)
 	}
 	return sb.String(), len(vs) == 0
+}
+
+// tableSvc is what the Tables handler sees of one node: the node's real Manager (creation without
+// starting a shard: there is no NodeHost in the race part).
+type tableSvc struct{ m *table.Manager }
+
+func (s tableSvc) GetTables() ([]table.Table, error)               { return s.m.GetTables() }
+func (s tableSvc) GetTable(name string) (table.ActiveTable, error) { return s.m.GetTable(name) }
+func (s tableSvc) Restore(string, io.Reader) error {
+	return errors.New("not available in the race part")
+}
+func (s tableSvc) CreateTable(name string) (table.Table, error) { return s.m.VerifCreateTable(name) }
+func (s tableSvc) DeleteTable(name string) error                { return s.m.DeleteTable(name) }
+
+// handlerErr maps the handler's status back to the error classes the oracle speaks about.
+func handlerErr(err error) error {
+	if err == nil {
+		return nil
+	}
+	msg := status.Convert(err).Message()
+	switch {
+	case strings.Contains(msg, serrors.ErrTableExists.Error()):
+		return serrors.ErrTableExists
+	case strings.Contains(msg, serrors.ErrTableNotFound.Error()):
+		return serrors.ErrTableNotFound
+	case strings.Contains(msg, kv.ErrVersionMismatch.Error()):
+		return kv.ErrVersionMismatch
+	}
+	return err
 }
 
 // ---------------------------------------------------------------------------------------------
